@@ -233,6 +233,19 @@ func (g *Registry) corrupt(resp *http.Response) {
 			resp.Header.Set("Docker-Content-Digest", digest.SHA512.FromString("some other content").String())
 			g.Applied = k
 		}
+	case "body-longer": // a chunked GET answer whose body goes on (100 KiB of white space) after the announced document
+		if resp.Request != nil && resp.Request.Method == http.MethodGet && resp.StatusCode == 200 {
+			old, _ := io.ReadAll(resp.Body)
+			if len(old) == 0 {
+				return
+			}
+			nb := append(old, bytes.Repeat([]byte{' '}, 100<<10)...)
+			cb := &countingBody{r: bytes.NewReader(nb), size: int64(len(nb))}
+			g.bodies = append(g.bodies, cb)
+			resp.Body, resp.ContentLength = cb, -1
+			resp.Header.Del("Content-Length")
+			g.Applied = k
+		}
 	case "digest-malformed":
 		if resp.Header.Get("Docker-Content-Digest") != "" {
 			resp.Header.Set("Docker-Content-Digest", "sha256:nothex")
